@@ -18,7 +18,7 @@ def run_h(history):
 def mk_cfg(ctx):
     acts = pm.ACTIONS if ctx.thorough else pm.ACTIONS[:5]
     return pm.Cfg(seed=ctx.seed, slots=("A", "B") if ctx.thorough else ("A",), max_objs=2, actions=acts, clock=False,
-                  queries=("name", "ppid"), numeric=False, use_iter=True, max_denies=1)
+                  queries=("name", "ppid"), numeric=False, use_iter=True, max_denies=1, oneshot=True)
 
 
 def static_cases(seed):
